@@ -157,6 +157,7 @@ func (m *Machine) runUnit(l *Loaded, u *Unit, sampleDir string, rng *rand.Rand) 
 	m.mergeLoops = u.MergeLoops
 	m.funcsSeen = map[*ssa.Function]bool{}
 	m.steps = 0
+	m.locksHeld = 0
 	q0, st0, se0 := m.sol.Queries, m.sol.Time, m.sol.Errors
 	parts := strings.SplitN(u.Harness, ".", 2)
 	pkg := l.byName[parts[0]]
